@@ -251,7 +251,7 @@ def arg_cases():
     return od20, mal, f21, email
 
 
-OPS = 33
+OPS = 37
 
 
 def CompositeLatest(dicts):
@@ -353,6 +353,23 @@ def run_arg_case(op, twice):
         30: ([unreg], lambda: CompositeLatest([unreg, dict(unreg, modified="2020-01-01T00:00:00.500Z")])),
         31: ([unreg], lambda: (versioning.new_version(unreg, x_h={"sha1": "1"}), versioning.revoke(unreg), markings.add_markings(unreg, M1))),
         32: ([mal26], lambda: (markings.add_markings(mal26, M1, ["external_references.[0].hashes.md5"]), markings.get_markings(mal26, "external_references.[0].hashes"))),
+    })
+    # a value taken out of one finished object and handed to the constructor of another: the first object is an argument's owner and stays as it was
+    donor_ms = stix2.v21.Identity(name="d", created="2020-01-01T00:00:00.000Z", modified="2020-01-01T00:00:00.100Z")           # millisecond / min values
+    donor_any = stix2.v21.Indicator(pattern="[a:b = 1]", pattern_type="stix", valid_from="2020-01-01T00:00:00Z", valid_until="2021-01-01T00:00:00.5Z")   # precision any
+    donor_20 = stix2.v20.Identity(name="d", identity_class="individual", created="2020-01-01T00:00:00.000Z", modified="2020-01-01T00:00:00.120Z")
+    cp33 = {"x_keep": 1, "x_none": None, "x_empty": [], "x_zero": 0}
+    table.update({
+        33: ([donor_ms, donor_any], lambda: (stix2.v21.Indicator(pattern="[a:b = 1]", pattern_type="stix", valid_from=donor_ms.created, valid_until=donor_ms.modified),
+                                            stix2.v21.Note(content="c", object_refs=[donor_ms.id], created=donor_any.valid_from, modified=donor_any.valid_until),
+                                            stix2.v21.Campaign(name="c", first_seen=donor_ms.created, last_seen=donor_ms.modified))),
+        34: ([donor_ms, donor_any, donor_20], lambda: (donor_ms.new_version(modified=donor_any.valid_until), stix2.v20.Campaign(name="c", first_seen=donor_20.created),
+                                                      stix2.v21.Identity(name="e", created=donor_20.created, modified=donor_20.modified),
+                                                      stix2.v20.Identity(name="e", identity_class="individual", created=donor_any.valid_from, modified=donor_any.valid_until),
+                                                      MemoryStore([donor_ms, donor_any]).query(), stix2.utils.parse_into_datetime(donor_ms.created), stix2.utils.format_datetime(donor_ms.modified))),
+        35: ([cp33], lambda: (stix2.v21.Identity(name="i", custom_properties=cp33), stix2.v20.Identity(name="i", identity_class="individual", custom_properties=cp33),
+                              stix2.v21.Identity(name="j").new_version(custom_properties=cp33), ObjectFactory().create(stix2.v21.Identity, name="k", custom_properties=cp33))),
+        36: ([dict(mal, custom_properties=cp33), cp33], lambda: (stix2.parse(dict(mal, custom_properties=cp33), allow_custom=True), MemoryStore(allow_custom=True).add(dict(mal, custom_properties=cp33)))),
     })
     args, fn = table[op]
 
